@@ -14,7 +14,7 @@ RULE = ('60 (1200) function-level cases: fitting_routines.linear_regression / op
         'non-trivial = non-singular regression (condition number < 1e8) with at least one model; distinct = distinct inputs.')
 EXHAUSTIVE = {'quick': False, 'thorough': False}
 ASSUMPTIONS = ['float rounding of the implementation: compared with relative tolerance 1e-10 x condition number of the 2x2 regression',
-               'regressions whose normal equations have a condition number between 1e8 and 1e15 (very unequal weights) are judged on the objective only: S at the reported (A_V, scale) within (1e-6 + 3e-17 x condition) x (1 + S_min) of the exact minimum; beyond 1e15 they are skipped',
+               'regressions whose normal equations have a condition number between 1e8 and 1e15 (very unequal weights) are judged on the objective only: S at the reported (A_V, scale) within (1e-6 + 1e-16 x condition) x (1 + S_min) of the exact minimum; beyond 1e15 they are skipped',
                'singular regressions (all extinction coefficients of the fitted bands equal) are outside the quantifier and skipped (counted)',
                'limit bands whose predicted flux is within 1e-9 of the limit are not compared on chi2 (near-tie filter)']
 ALLOWED_AXIOMS = ('ClassicalDedekindReals.sig_forall_dec', 'FunctionalExtensionality.functional_extensionality_dep')
@@ -253,7 +253,7 @@ def _judge_illcond(case, im, mo, bands, ks, cond, tags):
         s_impl = fitcase.objective(bands, ks, lms, av_i, sc_i)
         s_min = fitcase.objective(bands, ks, lms, av_m, sc_m)
         # a backward-stable solver leaves an excess of order eps^2 x condition x (largest weight), hence the second term
-        if s_impl > s_min + F(1e-6 + 3e-17 * cond) * (1 + s_min):
+        if s_impl > s_min + F(1e-6 + 1e-16 * cond) * (1 + s_min):
             fail.append('optimum: (A_V, scale) of %s gives S=%r, the constrained minimum is %r (condition %.1e)' % (name, float(s_impl), float(s_min), cond))
             break
     return dict(disagree=[], fail=fail[:3], nontrivial=True, tags=tags + ['ill-conditioned-objective-only'])
